@@ -546,6 +546,8 @@ func atoi(s string) int {
 	return n
 }
 
+var curTableColl = "utf8mb4_0900_bin" // collation of the table being generated (effective collation of columns without their own)
+
 func genDefault(r *lib.RNG, c *Col, allowEnum bool) {
 	t := c.Ty
 	if c.Auto || !r.Chance(1, 2) {
@@ -597,7 +599,11 @@ func genDefault(r *lib.RNG, c *Col, allowEnum bool) {
 		for len([]rune(s)) > atoi(t.N) {
 			s = string([]rune(s)[:atoi(t.N)])
 		}
-		if t.Coll != "" && !strings.HasPrefix(t.Coll, "utf8") {
+		eff := t.Coll
+		if eff == "" {
+			eff = curTableColl
+		}
+		if !strings.HasPrefix(eff, "utf8") {
 			s = strings.Map(func(x rune) rune {
 				if x > 127 {
 					return 'u'
@@ -737,6 +743,7 @@ func genTable(r *lib.RNG, enumDefaults bool) (*Table, []string) {
 			t.Idx = append(t.Idx, Index{Name: in.fresh("i"), Cols: []ICol{{Name: c.Name}}})
 		}
 	}
+	curTableColl = t.Coll
 	for i := range t.Cols {
 		genDefault(r, &t.Cols[i], enumDefaults)
 	}
@@ -780,8 +787,8 @@ func genProbes(r *lib.RNG, t *Table) []string {
 	for k := 0; k < 4; k++ {
 		var cols, vals []string
 		for _, c := range t.Cols {
-			if k > 0 && r.Chance(1, 3) {
-				continue // leave to the default
+			if k > 0 && r.Chance(1, 3) && !(c.Def != nil && c.Def.Kind == "now") {
+				continue // leave to the default (never for CURRENT_TIMESTAMP defaults: time-dependent, may collide on keys)
 			}
 			cols = append(cols, qid(c.Name))
 			vals = append(vals, probeValue(r, c))
